@@ -8,20 +8,73 @@ ROOT = os.path.dirname(os.path.dirname(os.path.abspath(__file__)))
 TB = ("CrossHair 0.0.110 symbolic executor + engine/plugin.py adaptations (validated per run by the native-vs-traced "
       "conformance gate), z3 5.1, the reference oracle in the harness, CPython 3.12")
 
+E1 = "Trusted: " + TB + "."
+
 CLAIMED = {
+    "C01": dict(
+        technique="bounded symbolic execution (CrossHair+z3) of Grammar.fuzz and of the repair/crossover/mutation pipeline with every random draw symbolic; independent derivation checker as oracle",
+        text="All seeds within the draw bound: every execution path of Grammar.fuzz on 6 grammars (draws <= 8, budgets {0,2,5,12}) and of the pipeline fuzz -> evaluate -> repetition/equality repair -> repair | mutation on 4 specs is discharged by z3; every produced tree is a derivation (independent checker), rooted at the start symbol, helper-free, with consistent bookkeeping. Bounded; the induction from per-step validity to whole search histories is not mechanised.",
+        note=E1 + " Outside: regex terminals, generators (C16), non-default Gmutator settings, whole evolutionary runs.", ref="DESIGN.md section 3 C01"),
+    "C02": dict(
+        technique="AST->SMT (z3 Float64) threshold-soundness query on Evaluator.evaluate_individual + CrossHair execution of real constraints/Evaluator on symbolic trees (exception path)",
+        text="E2: z3 shows on the formula generated from the current source that no assignment of per-constraint results (solved/total <= 1000, or raising) with h+r <= 2 (thorough <= 4) lets a tree be yielded while a hard or repetition-bound constraint is violated or raised (IEEE doubles; quotient lemma proved separately). E1: 8 constraint programs whose evaluation can raise, on all trees of the C07 bound: a raising combination makes the constraint fail, fitness < 1, and the real Evaluator does not yield the tree.",
+        note=E1 + " Plus engine/pysym.py (validated per run against the real Evaluator, bit-identical floats). Outside: liveness, whole runs, soft constraints.", ref="DESIGN.md section 3 C02"),
+    "C03": dict(
+        engine="E2-pysym",
+        technique="AST->SMT (z3 Float64) translation of Evaluator.evaluate_individual, threshold-completeness query over all constraint counts; plus CrossHair execution of the real Evaluator over all declaration orders",
+        text="z3 decides, on a formula generated from the current source of Evaluator.evaluate_individual/_evaluate_constraints/ConstraintFitness.fitness and IoEvaluator.evaluate_individual, that no counts h, r <= 64 (thorough 1000) of satisfied hard/repetition-bound constraints make an all-satisfied first-seen tree miss the acceptance threshold (IEEE-754 double, RNE). The translator is validated on >=200 random concrete vectors against the real Evaluator (bit-identical floats); class-mean lemma proved for k<=12 (64). Declaration orders: CrossHair executes the real constructor and evaluate_individual for every hard/rep order of length <= 6 (10).",
+        note="Trusted: z3 5.1 FP theory, engine/pysym.py (validated per run), stubs listed in evidence (cache miss, first-seen tree, logging no-op). Outside: soft constraints, more constraints than the bound, protocol-message gating of IoEvaluator.",
+        ref="DESIGN.md section 3 C03"),
     "C04": dict(
         technique="bounded symbolic execution of the real Earley parser (CrossHair+z3) on a symbolic word; independent derivation checker as oracle",
         text="Every execution path of IterativeParser on ANY str word up to the length bound (all code points) over a fixed family of 7 literal-terminal grammars is discharged by z3: each yielded tree is a derivation (independent checker), serialises to the word, has the requested root and no helper symbols. Counterexamples are replayed natively before being reported. Bounded: nothing is claimed for longer words, other grammars or regex terminals.",
-        note="Trusted: " + TB + ". Outside: regex terminals, words beyond the bound, grammars outside the family.",
-        ref="DESIGN.md section 3 C04"),
+        note=E1 + " Outside: regex terminals, words beyond the bound, grammars outside the family, bytes/bit inputs.", ref="DESIGN.md section 3 C04"),
+    "C05": dict(
+        technique="bounded symbolic execution of the real parser vs a reference recogniser (both directions) + Grammar.fuzz round trip with symbolic draws",
+        text="For 9 literal-terminal grammars (incl. empty-deriving repetition bodies) and ANY str word up to the bound: the real parser yields a tree iff the reference recogniser accepts. For 5 grammars and every draw sequence within the bound: the serialisation of the generated tree parses back to a tree with the same serialisation.",
+        note=E1 + " Outside: regex terminals (so empty-matching regexes are NOT decided), bytes/bit grammars, the constraint filter of --validate.", ref="DESIGN.md section 3 C05"),
+    "C06": dict(
+        technique="bounded symbolic execution of the real parser with the number of admitted Earley states counted against a bound derived from the compiled rule table",
+        text="For 11 grammars (nested repetitions, left/right recursion, optional/empty-deriving symbols under * and +) and ANY str word up to the bound, in forest mode and (for 4 grammars) prefix mode, the number of admitted states stays below 8*(#dotted rules)*(n+1)^2+64 on every path, i.e. the parse terminates; the twin shows the counter is live.",
+        note=E1 + " Outside: grammars that are themselves cyclic through nullable user recursion, regex terminals, prefix mode on left-recursive grammars (ends with RecursionError = raises).", ref="DESIGN.md section 3 C06"),
+    "C07": dict(
+        technique="bounded symbolic execution of real constraint objects (eager and lazy) on symbolic trees; differential against a reference evaluator written from the documentation",
+        text="29 constraint programs covering every selector and combinator named in the property, each read by the real reader; for EVERY tree of the bound (1-2 records over leaf alphabet {0,5,a}) check() equals the reference verdict, lazy equals eager, fitness < 1 when violated, and a one-constraint Evaluator yields the tree exactly when the constraint holds.",
+        note=E1 + " Constraint programs are a fixed list (not solver variables). Outside: other grammars, deeper trees, '->'.", ref="DESIGN.md section 3 C07"),
+    "C09": dict(
+        technique="bounded symbolic execution of TreeValue / DerivationTree.value over symbolic leaf sequences, contents, nesting and request order; oracle from the property text",
+        text="For every leaf sequence (<= 2 items quick / 3 thorough: text, bytes, 8-bit run, 4-bit run), content from alphabets spanning the UTF-8 length classes and the Latin-1 boundary, flat or cut into sibling subtrees, each of the 5 views equals the in-order concatenation oracle (or raises exactly when a bit run is misaligned), and any order of repeated requests on the tree and on one shared TreeValue gives the results of a fresh copy and leaves the leaves unchanged.",
+        note=E1 + " Finite content alphabets (encode/format realise symbolic contents). Outside: int() views, longer sequences.", ref="DESIGN.md section 3 C09"),
+    "C10": dict(
+        technique="bounded symbolic execution of sequences of public tree operations; from-scratch recomputation and object-identity snapshots as oracle",
+        text="For 3 initial trees and every sequence of 2 (thorough 3) of 16 public operations with symbolic operands, after every step every tree object held (including an 'already emitted' copy) has size/hash/equality equal to from-scratch recomputation and consistent parent links; read-only accessors and copy-producing operators leave their inputs identical, object identities included.",
+        note=E1 + " Outside: longer sequences, parser-internal ParserDerivationTree.", ref="DESIGN.md section 3 C10"),
+    "C11": dict(
+        technique="bounded symbolic execution of an evaluate/edit/evaluate history on long-lived constraint+evaluator objects vs separate objects with empty caches",
+        text="For 8 (thorough 29) constraint programs incl. nested rebinding quantifiers and every tree/edit in the bound: after evaluating tree A, the fitness, verdict, solved/total and failing trees reported for tree B (A with one leaf replaced - as a new tree or by editing the evaluated object in place) equal those of fresh objects.",
+        note=E1 + " 'Fresh' objects are separate constraint objects with emptied caches. Outside: longer histories, soft constraints.", ref="DESIGN.md section 3 C11"),
+    "C12": dict(
+        technique="bounded symbolic execution of the real Parser (cache included) under a symbolic history of parse-type requests vs a fresh Parser",
+        text="For 5 grammars (one ambiguous) and every history of <= 2 (thorough 3) requests out of 9 kinds (first tree, full forest, abandoned iteration, unstarted generator, prefix mode, other start symbol, mutation of returned trees at root/leaves) on words from a finite list: the forest then served for a target word equals a fresh Parser's forest, origin_repetitions up to renaming.",
+        note=E1 + " Outside: hookin_parent requests, interleaving two live generators.", ref="DESIGN.md section 3 C12"),
+    "C13": dict(
+        technique="bounded symbolic execution of IterativeParser.consume per fragment with the word and every cut position symbolic",
+        text="For 7 grammars, ANY str word up to the bound and EVERY composition into consecutive fragments: the complete parses after the last fragment equal those of consuming the word at once, and can_continue() is false only if the reference prefix-viability oracle says no extension is in the language.",
+        note=E1 + " Outside: regex terminals, bytes/bit inputs, the threaded receive path.", ref="DESIGN.md section 3 C13"),
+    "C15": dict(
+        engine="E3-gre",
+        technique="grammar IR -> z3 regular expressions; language-equality query (all words) between each grammar shape and its printed-and-reread form; CrossHair for literal quoting",
+        text="In part: for ~170 (thorough ~1600) generated grammar shapes (every postfix operator over terminals, nonterminals, grouped alternatives and sequences, bytes and non-ASCII literals, nested to depth 2/3, in 5 contexts) z3 decides that the grammar printed by repr() and read back denotes the same language for ALL words (no length bound). Literal quoting: Terminal.format_as_spec -> from_symbol round-trips every str/bytes of length <= 2 (3) over a 12-character alphabet with both quotes, backslash, newline, NUL, non-ASCII.",
+        note="Trusted: engine/gre.py (validated per run against Grammar.fuzz/parse), z3 sequence theory, the real spec reader. NOT covered: constraint printing, generators, party annotations, regex terminals, recursive grammars.", ref="DESIGN.md section 3 C15"),
+    "C16": dict(
+        technique="bounded symbolic execution of generation and subtree replacement on specs with generators (symbolic draws, symbolic generator return value, symbolic replaced node)",
+        text="For 4 specs (two distinct arguments, same symbol twice, nested generated argument, stub generator): on every path each generator-defined field equals the generator (re-implemented in the harness) applied to the arguments recorded in .sources, its children are read-only; replace() of any node (sources included) keeps these invariants, never replaces read-only nodes, never modifies its input; a stub value that does not fit the rule raises FandangoParseError, a fitting one appears verbatim.",
+        note=E1 + " Outside: random generators, converters, longer operator histories.", ref="DESIGN.md section 3 C16"),
+    "C18": dict(
+        technique="bounded symbolic execution of the real adaptive step (extracted from the current source) inside the real generate(), observing an unrelated spec object; symbolic parse-request histories over two spec objects",
+        text="For every fitness/diversity trajectory in the bound (1 generation with threshold-straddling value sets, 2-3 generations with reduced sets) and both ways of ending the run (exhausted, abandoned+closed), all observables of an unrelated spec object B - repetition caps, compiled parse table, tuner start values - are unchanged afterwards; parse answers of two spec objects with look-alike regex/literal terminals are independent of the request history.",
+        note=E1 + " Outside: interleaving two active runs (the cap is process-wide by design while a run is active), FandangoIO singletons.", ref="DESIGN.md section 3 C18"),
 }
-
-CLAIMED["C03"] = dict(
-    engine="E2-pysym",
-    technique="AST->SMT (z3 Float64) translation of Evaluator.evaluate_individual, threshold-completeness query over all constraint counts; plus CrossHair execution of the real Evaluator over all declaration orders",
-    text="z3 decides, on a formula generated from the current source of Evaluator.evaluate_individual/_evaluate_constraints/ConstraintFitness.fitness and IoEvaluator.evaluate_individual, that no counts h, r <= 64 (thorough 1000) of satisfied hard/repetition-bound constraints make an all-satisfied first-seen tree miss the acceptance threshold (IEEE-754 double, RNE). The translator is validated on >=200 random concrete vectors against the real Evaluator (bit-identical floats); class-mean lemma proved for k<=12 (64). Declaration orders: CrossHair executes the real constructor and evaluate_individual for every hard/rep order of length <= 6 (10).",
-    note="Trusted: z3 5.1 FP theory, engine/pysym.py (validated per run), stubs listed in evidence (cache miss, first-seen tree, logging no-op). Outside: soft constraints, more constraints than the bound, protocol-message gating of IoEvaluator.",
-    ref="DESIGN.md section 3 C03")
 
 NOT_APPLICABLE = {
     "C08": "the translator under test is ANTLR-generated lexer/parser code plus visitors over its parse tree; a symbolic program text is realised character by character by the ATN simulator, so no solver-based engine here can quantify over programs (DESIGN.md section 5)",
